@@ -160,7 +160,8 @@ def run(prop, theorems, tier, replay=None, extra_gen=None, known_classifier=None
             for k, e in o.get("ended", {}).items():
                 if e.get("panicked"):
                     v.append(("PANIC", f"connection task {k} panicked", t))
-        return [x for x in v if x[0] in tags or x[0] == "PANIC"]
+        also = set(case.get("also", []))      # a directed history may name further monitors whose verdicts bear on this property
+        return [x for x in v if x[0] in tags or x[0] in also or x[0] == "PANIC"]
 
     def search(cases, tag):
         obs = observe(cases, tag)
